@@ -109,7 +109,7 @@ func verifHarnessC08() {
 			if verifParam("onlyget") != 1 {
 				o.kind = verifChoice("kind", nk)
 			}
-			o.ki = verifChoice("ki", len(kp.keys))
+			o.ki = verifChoice("ki", kp.hot())
 			if o.kind == 0 {
 				o.val = verifBytes("val", 1)
 			}
